@@ -725,6 +725,9 @@ func extraCommand(cmd string, args []string) bool {
 	case "rpcstress":
 		runRPCStress(args)
 		return true
+	case "codecstress":
+		runCodecStress(args)
+		return true
 	case "rpcfirst":
 		runRPCFirst(args)
 		return true
